@@ -278,7 +278,18 @@ def resolve_faults(rec: dict) -> None:
             continue
         op = rec["history"][f["at_op"]]
         n = 40 if gen.ops_has_ref(op) else max(1, runner.lines(op))
-        f["line"] = 1 + int(f["frac"] * n)
+        # 60 % anywhere in the call, 20 % among its first 64 library lines, 20 % among its last 64: in a long call (a
+        # tree that loads or indexes lazily passes 10^5 lines in its first lookup) the in-flight windows - claim,
+        # publish, release - sit at the two ends, and a uniform position almost never lands there.  For calls of at
+        # most 64 lines all three cases are uniform over the whole call.
+        fr, edge = f["frac"], min(n, 64)
+        if fr < 0.6:
+            f["line"] = 1 + int(fr / 0.6 * n)
+        elif fr < 0.8:
+            f["line"] = 1 + int((fr - 0.6) / 0.2 * edge)
+        else:
+            f["line"] = n - int((fr - 0.8) / 0.2 * edge)
+        f["line"] = max(1, min(n, f["line"]))
 
 
 # ---------------------------------------------------------------------------------------------
@@ -732,6 +743,13 @@ def main() -> int:
     vseed = core.verif_seed()
     print(f"VERIF_SEED={vseed} property={PROP} tier={args.tier} tree={core.src_dir()} workers={core.workers()}")
     nruns = args.runs if args.runs is not None else int(os.environ.get("VERIF_RUNS") or (6000 if args.tier == "quick" else 80_000))
+    probe_key = (runner.POOL["bank_keys"]["single"] or runner.POOL["bank_keys"]["missing"])[0]
+    cold_cost = runner.lines(["bic_candidates", *probe_key])
+    lazy_tree = cold_cost > 20000  # deterministic: library lines the first lookup of a process passes
+    if lazy_tree and args.runs is None and not os.environ.get("VERIF_RUNS"):
+        nruns //= 4
+        print(f"note: the first lookup of a process passes {cold_cost} library lines: lazily initialising tree, every "
+              f"pristine reference fork pays for the initialisation; exploring {nruns} histories instead of {nruns * 4}")
     nfresh = args.fresh if args.fresh is not None else (32 if args.tier == "quick" else 256)
     deadline = runner.wall_cap(args.tier)
     tasks = [{"indices": ch, "vseed": vseed, "tier": args.tier, "digests": args.digests, "deadline": deadline}
@@ -842,6 +860,7 @@ def main() -> int:
         "components": {"real": ["schwifty (tree under test)", "pycountry", "rstr", "re", "json", "bundled registries"],
                        "stub": ["call sequence / mid-call aborts (sys.monitoring LINE callback raising SimAbort or MemoryError)"]},
         "violations_seen": agg["violation_count"],
+        "cold_start_cost_in_library_lines": cold_cost, "histories_reduced_for_lazy_tree": lazy_tree,
         "tree_sha256": core.tree_digest(),
     }
     if not args.no_evidence:
